@@ -498,3 +498,16 @@ func (r *Run) Phase(name string) {
 	r.mu.Unlock()
 	fmt.Printf("  phase %-40s %.1fs\n", name, d.Seconds())
 }
+
+// childBinary is the monitor binary used for child processes: $VERIF_MON when
+// set (the coverage pass runs the parent inside a test binary, which must not
+// be re-executed), else the running executable.
+func childBinary() string {
+	if p := os.Getenv("VERIF_MON"); p != "" {
+		if _, err := os.Stat(p); err == nil {
+			return p
+		}
+	}
+	p, _ := os.Executable()
+	return p
+}
